@@ -130,6 +130,12 @@ def sym_binop(interp, op, a, b):
             return a + b
         if isinstance(a, (list, tuple)) and t is ast.Mult and isinstance(b, int):
             return a * b
+        if isinstance(a, list) and t is ast.Mult and isinstance(b, SymInt) and len(a) == 1 and \
+                (a[0] is None or isinstance(a[0], (int, str, float, bool))):
+            # [x] * n with symbolic n: a list of symbolic length whose cells all hold the immutable x
+            x = a[0]
+            n = ite(b > 0, b, 0)
+            return SymList(p.fresh_name('replist'), n, lambda pp, i: x, p)
         raise Unsupported(f'binary {t.__name__} on {type(a).__name__}, {type(b).__name__}')
     isf = ka == 'f' or kb == 'f'
     if t is ast.Add:
